@@ -325,7 +325,7 @@ func (self *linkedPairs) Get(key string) (*Pair, int) {
 		i, ok := self.index[caching.StrHash(key)]
 		if ok {
 			n := self.At(i)
-			if n.Key == key {
+			if n != nil && n.Key == key {
 				return n, i
 			}
 			// hash conflicts
@@ -336,7 +336,12 @@ func (self *linkedPairs) Get(key string) (*Pair, int) {
 	}
 linear_search:
 	for i := 0; i < self.size; i++ {
-		if n := self.At(i); n.Key == key {
+		/* a removed pair is the zero Pair: it must not shadow a real empty key */
+		n := self.At(i)
+		if key == "" && n.hash == 0 && !n.Value.Exists() {
+			continue
+		}
+		if n.Key == key {
 			return n, i
 		}
 	}
